@@ -205,6 +205,7 @@ def run(ctx):
       'neg-zero-slice': 'an empty remainder becomes the whole list'})
   C09.velocity(ctx)     # extraction re-bins the velocity the renderer wrote: the two maps must be inverse on bin representatives
   C07.parameters_reach(ctx)      # the limits and the instrument given to a constructor are the ones extraction works with
+  C07.pad_to_bar(ctx, 'EXTRACT/pad-next-bar-line')      # a padded extraction of rendered events gives the events back, not an extra bar
   C07.roll_pitch_range(ctx, 'EXTRACT/roll-pitch-range')
   C07.roll_gap_index(ctx, 'EXTRACT/roll-gap-index')
   C07.velocity_onsets(ctx, 'EXTRACT/velocity-onsets-only')
